@@ -273,7 +273,7 @@ func runC09(r *Run) {
 	// corpus first
 	corpus := []string{"truex", "trueand false", "1or 2", "a.b", "a .+ b", "a.+b", "x?.y", "1.2.3", "0x0F", "0123", "1e5e6", "1.e3", "\"a\\u00e9\\n\"", "\"bad\\q\"",
 		"`raw\nline`", "'2020-01-01 00:00:00'", "a\n  b\r\n\tc", "né x", "x y", "　a", "a<=>b", "a<==b", "a=>>b", "x+++y", "x++++y", "isnt_", "is nt", "a::b", "[1:2]", "x := 1",
-		"0b102", "0o78", "0xg", "1.5e+", "1.5e+3.2", "''", "``", "\"\"", "_", "é1", "١", "a?b:c", "a ? b : c", "c?-1:2", "[1,2][0]", "{a:1}.a", "f(x,y)", "ˆ", "aˆb"}
+		"0b102", "0o78", "0xg", "1.5e+", "1.5e+3.2", "1e05", "1.5e-03", "6.02E+023", "1e00", "1e007", "2e-0", "1e+00x", "1.0e010 + 1", "1e0", "1e10", "0e0", "1e01e02", "''", "``", "\"\"", "_", "é1", "١", "a?b:c", "a ? b : c", "c?-1:2", "[1,2][0]", "{a:1}.a", "f(x,y)", "ˆ", "aˆb"}
 	for _, c := range corpus {
 		for _, s := range sets {
 			c09One(r, s, c)
@@ -290,7 +290,7 @@ func runC09(r *Run) {
 	alphabets := [][]rune{
 		{'t', 'r', 'u', 'e', 'o', '1', '.', '<', '=', '!', ' ', '\n', '"', 'é'},
 		{'i', 's', 'n', 't', '.', '+', '=', '>', '<', '0', 'x', ' ', '\'', '_'},
-		{'+', '!', '~', '>', 'i', 'n', 'ˆ', '1', 'e', '.', '-', ' ', '`', '\\'},
+		{'+', '!', '~', '>', 'i', 'n', 'ˆ', '1', 'e', '.', '-', ' ', '`', '\\', '0'},
 		{':', '=', 'a', '1', ' ', '?', '[', ']'},
 		{'<', '=', '>', '*', '&', 'a', 'n', 'd', ' ', '1'},
 		{'!', '=', '|', '>', '&', 'x', 'o', 'r', ' ', '.'},
